@@ -8,6 +8,8 @@ SCALARS = [("char", 1, 1), ("signed char", 1, 1), ("unsigned char", 1, 1), ("sho
            ("long", 8, 8), ("unsigned long long", 8, 8), ("float", 4, 4), ("double", 8, 8), ("long double", 16, 16), ("void *", 8, 8), ("_Bool", 1, 1),
            ("int *", 8, 8), ("char *", 8, 8), ("__int128", 16, 16)]
 BF_BASES = ["char", "unsigned char", "short", "unsigned short", "int", "unsigned", "long", "unsigned long long", "_Bool"]
+# typedefs whose alignment is below their size (as unsigned long long is on i386): only used when attributes are allowed
+PRELUDE_ATTR = "typedef unsigned long long u64a4 __attribute__((aligned(4)));\ntypedef long i64a2 __attribute__((aligned(2)));\n"
 
 
 class Rec:
@@ -32,8 +34,9 @@ class Rec:
 
 
 class Gen:
-    def __init__(self, rng, bitfields=True, attrs=True, nested=True, arrays=True, unions=True):
+    def __init__(self, rng, bitfields=True, attrs=True, nested=True, arrays=True, unions=True, portable=False):
         self.r = rng
+        self.portable = portable   # only types that exist with the same spelling on 32-bit and MSVC targets
         self.cfg = dict(bitfields=bitfields, attrs=attrs, nested=nested, arrays=arrays, unions=unions)
         self.recs = []
 
@@ -42,6 +45,8 @@ class Gen:
         x = r.random()
         if x < 0.65 or not self.recs:
             t = r.choice(SCALARS)[0]
+            while self.portable and t == "__int128":
+                t = r.choice(SCALARS)[0]
             return t
         if self.cfg["nested"]:
             o = r.choice(self.recs)
@@ -62,8 +67,12 @@ class Gen:
                 # a run of bit-fields
                 rec.features.add("bitfield")
                 for _ in range(r.choice([1, 2, 3, 4])):
-                    base = r.choice(BF_BASES)
-                    maxw = {"char": 8, "unsigned char": 8, "short": 16, "unsigned short": 16, "int": 32, "unsigned": 32, "long": 64, "unsigned long long": 64, "_Bool": 1}[base]
+                    base = r.choice(BF_BASES + (["u64a4", "i64a2"] if self.cfg["attrs"] and not self.portable else []))
+                    while self.portable and base == "long":
+                        base = r.choice(BF_BASES)
+                    if base in ("u64a4", "i64a2"):
+                        rec.features.add("member-aligned")
+                    maxw = 64 if base in ("u64a4", "i64a2") else {"char": 8, "unsigned char": 8, "short": 16, "unsigned short": 16, "int": 32, "unsigned": 32, "long": 64, "unsigned long long": 64, "_Bool": 1}[base]
                     y = r.random()
                     if y < 0.08:
                         rec.members.append({"name": None, "decl": "%s : 0" % base, "bitfield": (base, 0), "anon": True})
@@ -105,16 +114,25 @@ class Gen:
             elif x < 0.34:
                 rec.pragma_pack = r.choice([1, 2, 4, 8])
                 rec.features.add("pragma-pack")
+        if self.cfg["bitfields"] and rec.kind == "struct" and r.random() < 0.15:
+            # a trailing zero-width bit-field rounds the size up to its type's alignment without raising the record's
+            zb = r.choice(["int", "long", "short"])
+            rec.members.append({"name": None, "decl": "%s : 0" % zb, "bitfield": (zb, 0), "anon": True})
+            rec.features.add("bitfield")
+            rec.features.add("trailing-zero-width")
         if self.cfg["arrays"] and rec.kind == "struct" and r.random() < 0.04 and rec.members and not rec.members[-1]["bitfield"]:
             rec.members.append({"name": "fam", "decl": "int fam[]", "bitfield": None, "anon": False, "fam": True})
             rec.features.add("flexible-array")
         self.recs.append(rec)
         return rec
 
+    def prelude(self):
+        return PRELUDE_ATTR if self.cfg["attrs"] and not self.portable else ""
+
     def header(self, n):
         for i in range(n):
             self.record(i)
-        return "\n".join(r.text() for r in self.recs)
+        return self.prelude() + "\n".join(r.text() for r in self.recs)
 
 
 def c_probe(header_path, recs, tmp, tag, extra_flags=()):
